@@ -81,6 +81,13 @@ def run(ck, F):
     ck.rules[K.R_atom]['floor'] = 2
     ck.rules[K.R_guard]['floor'] = 15
     ck.extra['tables'] = sorted(tables)
+    import words as _words
+    _W, _kw, _strays = _words.static_words_outside_table(F)
+    R_tab_only = ck.rule('C04.static-words-in-the-table', 'every statically allocated word (an object of the class of the reserved-word table\'s '
+                         'elements) is an element of that table: interning recognises a reserved spelling by searching the table, so a word '
+                         'kept anywhere else -- a constant of its own, a data member -- is a second Identifier / Logogram / String for its spelling', floor=1)
+    ck.check(R_tab_only, 'known_words', not _strays, f'object(s) of {contracts.short(_W)} outside {_kw["q"]}: ' + '; '.join(f'{w} [{l}]' for w, l in _strays[:4]),
+             loc=(_strays[0][1] if _strays else _kw['loc']))
     RT = ck.rule('C04.tables-used', 'every ordered table of name_factory / expr_factory is reached by an analysed request', floor=13)
     for cls in (NF, EF):
         rec = F.rec[cls]
